@@ -43,10 +43,10 @@ impl Property for C08 {
         }
     }
     fn required_features(&self, _tier: Tier) -> Vec<String> {
-        ["expected/spend", "expected/mint", "expected/reward", "feature/many-input", "feature/burn-redeemer", "multi-utxo-redeemer", "orders/spend-not-source-order"].iter().map(|s| s.to_string()).collect()
+        ["expected/spend", "expected/mint", "expected/reward", "feature/many-input", "feature/burn-redeemer", "multi-utxo-redeemer", "orders/spend-not-source-order", "unencodable-redeemer/checked"].iter().map(|s| s.to_string()).collect()
     }
     fn run_case(&self, ctx: &mut Ctx, phase: &str, _idx: u64, rng: &mut Rng) {
-        let cfg = Cfg { redeemer_focus: true, cardano_pct: 30, mint_pct: 70, datum_pct: 40, ..Default::default() };
+        let cfg = Cfg { redeemer_focus: true, cardano_pct: 30, mint_pct: 70, datum_pct: 40, unencodable_redeemer: true, ..Default::default() };
         let g = build::generate(rng, &cfg);
         for t in &g.prog.tags {
             ctx.count(&format!("feature/{t}"));
@@ -61,6 +61,19 @@ impl Property for C08 {
                 let w = build::world(&g, ti, rng, &cfg);
                 let Ok(exp) = Sem::new(&g.prog, &w).tx(txd) else {
                     ctx.count("world/undefined-denotation");
+                    // a redeemer that has no Plutus-Data form: whatever else happens, no transaction may come
+                    // out that spends the input without it
+                    if g.prog.tags.iter().any(|t| t == "unencodable-redeemer") && txd.inputs.iter().any(|i| matches!(&i.redeemer, Some(crate::gen::ast::E::Param(_)))) {
+                        ctx.eval();
+                        ctx.count("unencodable-redeemer/checked");
+                        if let Ok(c) = back_assigned(&tir, &w, &PP::default()) {
+                            let n_red = txview::view(&c.payload).map(|v| v.tx.redeemers.iter().filter(|(k, _)| k.0 == 0).count()).unwrap_or(0);
+                            let n_exp: usize = txd.inputs.iter().filter(|i| i.redeemer.is_some()).map(|i| w.inputs[&i.name.to_lowercase()].len()).sum();
+                            if n_red < n_exp {
+                                ctx.violation("lost-redeemer:spend:unencodable-redeemer-dropped", json!({"source": src, "tx": txd.name, "world": world_json(&w), "spend_redeemers_in_witness_set": n_red, "expected_one_per_guarded_utxo": n_exp}));
+                            }
+                        }
+                    }
                     continue;
                 };
                 if exp.ambiguous.is_some() {
